@@ -19,13 +19,94 @@ import (
 
 type recipeCase struct {
 	Recipe []uint32 `json:"recipe"`
+	// Session refines the session the message is sent on (0 = what the recipe alone yields: 4-octet AS,
+	// ADD-PATH in both directions or off).  bit 0: the peer has no 4-octet-AS capability (Use2ByteAS:
+	// AS_PATH and AGGREGATOR carry 2-octet AS numbers, AS4_PATH / AS4_AGGREGATOR may accompany them);
+	// bits 1-2: direction of ADD-PATH where the recipe switched it on: 0 both, 1 send only, 2 receive
+	// only.  The receiver always parses with the mirrored options.
+	Session int `json:"session,omitempty"`
+}
+
+// recvOpt is the other end's view of the sender's options o.
+func recvOpt(o *bgp.MarshallingOption) *bgp.MarshallingOption {
+	if o == nil {
+		return nil
+	}
+	r := *o
+	if o.AddPath != nil {
+		r.AddPath = map[bgp.Family]bgp.BGPAddPathMode{}
+		for f, m := range o.AddPath {
+			var x bgp.BGPAddPathMode
+			if m&bgp.BGP_ADD_PATH_SEND != 0 {
+				x |= bgp.BGP_ADD_PATH_RECEIVE
+			}
+			if m&bgp.BGP_ADD_PATH_RECEIVE != 0 {
+				x |= bgp.BGP_ADD_PATH_SEND
+			}
+			r.AddPath[f] = x
+		}
+	}
+	return &r
+}
+
+// applySession refines o and m by the Session field of the case.
+func applySession(session int, m *bgp.BGPMessage, o *bgp.MarshallingOption) {
+	switch (session >> 1) & 3 {
+	case 1:
+		for f, md := range o.AddPath {
+			if md != 0 {
+				o.AddPath[f] = bgp.BGP_ADD_PATH_SEND
+			}
+		}
+	case 2:
+		for f, md := range o.AddPath {
+			if md != 0 {
+				o.AddPath[f] = bgp.BGP_ADD_PATH_RECEIVE
+			}
+		}
+	}
+	if session&1 == 0 {
+		return
+	}
+	o.Use2ByteAS = true
+	u, ok := m.Body.(*bgp.BGPUpdate)
+	if !ok {
+		return
+	}
+	// what the sender does for such a peer (table.UpdatePathAttrs2ByteAs): 2-octet AS_PATH segments and
+	// AGGREGATOR, AS_TRANS for the numbers that do not fit
+	trans := func(as uint32) uint16 {
+		if as > 65535 {
+			return bgp.AS_TRANS
+		}
+		return uint16(as)
+	}
+	for i, a := range u.PathAttributes {
+		switch v := a.(type) {
+		case *bgp.PathAttributeAsPath:
+			var ps []bgp.AsPathParamInterface
+			for _, p := range v.Value {
+				l := p.GetAS()
+				as := make([]uint16, len(l))
+				for j := range l {
+					as[j] = trans(l[j])
+				}
+				ps = append(ps, bgp.NewAsPathParam(p.GetType(), as))
+			}
+			u.PathAttributes[i] = bgp.NewPathAttributeAsPath(ps)
+		case *bgp.PathAttributeAggregator:
+			n, _ := bgp.NewPathAttributeAggregator(trans(v.Value.AS), v.Value.Address)
+			u.PathAttributes[i] = n
+		}
+	}
 }
 
 func drawRecipe(max int) func(t *rapid.T) recipeCase {
 	return func(t *rapid.T) recipeCase {
 		// a recipe that runs dry yields only minimal choices, so keep a floor on its length;
 		// shrinking still zeroes the entries
-		return recipeCase{Recipe: rapid.SliceOfN(rapid.Uint32(), max/3, max).Draw(t, "recipe")}
+		return recipeCase{Recipe: rapid.SliceOfN(rapid.Uint32(), max/3, max).Draw(t, "recipe"),
+			Session: rapid.SampledFrom([]int{0, 0, 0, 0, 1, 1, 2, 2, 4, 4, 3, 5}).Draw(t, "session")}
 	}
 }
 
@@ -449,7 +530,7 @@ func checkElements(m *bgp.BGPMessage, o *bgp.MarshallingOption, st *verifkit.Sta
 			// to the end of the attribute, so it is only decoded on its own
 			tail = nil
 		}
-		n2, err := bgp.NLRIFromSlice(f, append(append([]byte{}, nb...), tail...), o)
+		n2, err := bgp.NLRIFromSlice(f, append(append([]byte{}, nb...), tail...), recvOpt(o))
 		if err != nil {
 			return verifkit.Failf("nlri-decode", "%s NLRI %s (%x) followed by other data does not decode: %v", f, n, nb, err)
 		}
@@ -504,7 +585,7 @@ func checkElements(m *bgp.BGPMessage, o *bgp.MarshallingOption, st *verifkit.Sta
 		if err != nil {
 			return verifkit.Failf("attr-get", "attribute %s: %v", a.GetType(), err)
 		}
-		if err := a2.DecodeFromBytes(buf, o); err != nil {
+		if err := a2.DecodeFromBytes(buf, recvOpt(o)); err != nil {
 			return verifkit.Failf("attr-decode", "attribute %s (%d octets) followed by other data does not decode: %v", a.GetType(), len(ab), err)
 		}
 		if a2.Len(o) != len(ab) {
@@ -582,9 +663,9 @@ func checkMessage(m *bgp.BGPMessage, o *bgp.MarshallingOption, st *verifkit.Stat
 	if f := compareFraming(w, m, o); f != nil {
 		return nil, f
 	}
-	m2, err := bgp.ParseBGPMessage(wire, o)
+	m2, err := bgp.ParseBGPMessage(wire, recvOpt(o))
 	if err != nil {
-		return nil, verifkit.Failf("reparse", "emitted %s does not parse back under the same options %s: %v\n%s\n%x", kind, verifgen.OptString(o), err, jsonOf(m), wire)
+		return nil, verifkit.Failf("reparse", "emitted %s does not parse back under the session's options %s: %v\n%s\n%x", kind, verifgen.OptString(o), err, jsonOf(m), wire)
 	}
 	wire2, err := m2.Serialize(o)
 	if err != nil || !bytes.Equal(wire, wire2) {
@@ -609,7 +690,11 @@ func runC04(c recipeCase, st *verifkit.Stats) *verifkit.Failure {
 	s := verifgen.NewSrc(c.Recipe)
 	m, fams := verifgen.Message(s)
 	o := verifgen.Options(s, fams...)
+	applySession(c.Session, m, o)
 	verifgen.NormalisePathIDs(m, o)
+	if c.Session != 0 {
+		st.Label(fmt.Sprintf("session-as2=%v-addpathdir=%d", c.Session&1 != 0, (c.Session>>1)&3))
+	}
 	wire, f := checkMessage(m, o, st)
 	if f != nil || wire == nil {
 		return f
@@ -678,7 +763,7 @@ func extLenVariant(wire []byte, o *bgp.MarshallingOption, idx int) []byte {
 func fixpointOfAccepted(b []byte, o *bgp.MarshallingOption, st *verifkit.Stats, strict bool) *verifkit.Failure {
 	walkLenient = true
 	defer func() { walkLenient = false }()
-	p, err := bgp.ParseBGPMessage(b, o)
+	p, err := bgp.ParseBGPMessage(b, recvOpt(o))
 	if err != nil || p == nil {
 		st.Label("mutant-rejected")
 		return nil
@@ -737,7 +822,7 @@ func fixpointOfAccepted(b []byte, o *bgp.MarshallingOption, st *verifkit.Stats, 
 		}
 		return verifkit.Failf("accepted-unserialisable", "accepted input %x does not re-serialise: %v", b, err)
 	}
-	p1, err := bgp.ParseBGPMessage(b1, o)
+	p1, err := bgp.ParseBGPMessage(b1, recvOpt(o))
 	if err != nil {
 		return verifkit.Failf("accepted-reparse", "accepted input %x re-serialises to %x which is rejected: %v", b, b1, err)
 	}
